@@ -1,4 +1,5 @@
 import UtilModel.Core.Driver
+import UtilModel.Core.DriverH
 import UtilModel.LinkedList.Model
 import UtilModel.LinkedList.Monitors
 /-! Development driver for this component only: `lake env lean --run UtilModel/LinkedList/TestDriver.lean linkedlist < hist` -/
@@ -6,5 +7,5 @@ open UtilModel
 
 def main (args : List String) : IO UInt32 :=
   driverMain [
-    mkEntry "linkedlist" LinkedList.model LinkedList.parseObs [MonEntry.ofMonitor "C12" LinkedList.monC12] (cap := 2000)
+    mkEntryH "linkedlist" LinkedList.model LinkedList.parseObs [MonEntry.ofMonitor "C12" LinkedList.monC12] (cap := 60000)
   ] args
